@@ -356,3 +356,140 @@ def guard_eq(fn, node, value, stop=None):
 def fmt_slots(s):
     """Number of conversion slots in a %-format string (ignores %%)."""
     return len(re.findall(r"%(?!%)[-+ #0]*\d*(?:\.\d+)?[diouxXeEfFgGcrs]", s.replace("%%", "")))
+
+
+class Undecidable(Exception):
+    pass
+
+
+def eval_small(e, env):
+    """Evaluate a side-effect-free expression of a small language (names bound in env, constants, set / tuple / list literals and constructors, set algebra and
+    set methods, len / all / any / min / max / abs / sorted, arithmetic, comparisons incl. chains and membership, boolean operators, conditional expressions,
+    constant subscripts, quantified generator expressions) on ABSTRACT REPRESENTATIVE values chosen by the calling rule.  Used to decide guards whose operands are
+    touched only through comparisons / set algebra, over a finite set of representatives.  Anything else raises Undecidable."""
+    if isinstance(e, ast.Name):
+        if e.id in env:
+            return env[e.id]
+        if e.id in ("True", "False", "None"):
+            return {"True": True, "False": False, "None": None}[e.id]
+        raise Undecidable(e.id)
+    if isinstance(e, ast.Constant):
+        return e.value
+    if isinstance(e, (ast.Set, ast.Tuple, ast.List)):
+        vals = [eval_small(x, env) for x in e.elts]
+        return frozenset(vals) if isinstance(e, ast.Set) else tuple(vals)
+    if isinstance(e, ast.UnaryOp):
+        v = eval_small(e.operand, env)
+        if isinstance(e.op, ast.Not):
+            return not v
+        if isinstance(e.op, ast.USub):
+            return -v
+        if isinstance(e.op, ast.UAdd):
+            return +v
+        raise Undecidable("unary")
+    if isinstance(e, ast.BoolOp):
+        if isinstance(e.op, ast.And):
+            v = True
+            for x in e.values:
+                v = eval_small(x, env)
+                if not v:
+                    return v
+            return v
+        v = False
+        for x in e.values:
+            v = eval_small(x, env)
+            if v:
+                return v
+        return v
+    if isinstance(e, ast.IfExp):
+        return eval_small(e.body, env) if eval_small(e.test, env) else eval_small(e.orelse, env)
+    if isinstance(e, ast.BinOp):
+        a, b = eval_small(e.left, env), eval_small(e.right, env)
+        sets = isinstance(a, (set, frozenset)) and isinstance(b, (set, frozenset))
+        nums = all(isinstance(x, (int, float)) and not isinstance(x, bool) for x in (a, b))
+        try:
+            if isinstance(e.op, ast.Sub) and (sets or nums):
+                return a - b
+            if isinstance(e.op, ast.BitAnd) and sets:
+                return a & b
+            if isinstance(e.op, ast.BitOr) and sets:
+                return a | b
+            if isinstance(e.op, ast.BitXor) and sets:
+                return a ^ b
+            if isinstance(e.op, ast.Add) and (nums or (isinstance(a, tuple) and isinstance(b, tuple))):
+                return a + b
+            if isinstance(e.op, ast.Mult) and nums:
+                return a * b
+            if isinstance(e.op, ast.Div) and nums and b != 0:
+                return a / b
+            if isinstance(e.op, ast.FloorDiv) and nums and b != 0:
+                return a // b
+            if isinstance(e.op, ast.Mod) and nums and b != 0:
+                return a % b
+        except Exception:
+            raise Undecidable("arithmetic")
+        raise Undecidable("operator")
+    if isinstance(e, ast.Compare):
+        left = eval_small(e.left, env)
+        for op, c in zip(e.ops, e.comparators):
+            right = eval_small(c, env)
+            try:
+                if isinstance(op, ast.In):
+                    r = left in right
+                elif isinstance(op, ast.NotIn):
+                    r = left not in right
+                elif isinstance(op, ast.Is):
+                    r = left is right
+                elif isinstance(op, ast.IsNot):
+                    r = left is not right
+                else:
+                    r = {ast.Eq: lambda x, y: x == y, ast.NotEq: lambda x, y: x != y, ast.Lt: lambda x, y: x < y, ast.LtE: lambda x, y: x <= y,
+                         ast.Gt: lambda x, y: x > y, ast.GtE: lambda x, y: x >= y}[type(op)](left, right)
+            except (TypeError, KeyError):
+                raise Undecidable("comparison")
+            if not r:
+                return False
+            left = right
+        return True
+    if isinstance(e, ast.Subscript) and isinstance(e.slice, ast.Constant):
+        try:
+            return eval_small(e.value, env)[e.slice.value]
+        except Exception:
+            raise Undecidable("subscript")
+    if isinstance(e, ast.Call) and not e.keywords:
+        f = call_name(e)
+        if isinstance(e.func, ast.Name) and f in ("set", "frozenset", "tuple", "list", "len", "all", "any", "bool", "sorted", "min", "max", "abs", "sum") and len(e.args) >= 1:
+            a0 = e.args[0]
+            if len(e.args) == 1 and isinstance(a0, (ast.GeneratorExp, ast.ListComp, ast.SetComp)) and len(a0.generators) == 1 and isinstance(a0.generators[0].target, ast.Name):
+                g = a0.generators[0]
+                vals = []
+                for item in eval_small(g.iter, env):
+                    e2 = dict(env)
+                    e2[g.target.id] = item
+                    if all(eval_small(c, e2) for c in g.ifs):
+                        vals.append(eval_small(a0.elt, e2))
+                args = [tuple(vals)]
+            else:
+                args = [eval_small(x, env) for x in e.args]
+            try:
+                if f in ("set", "frozenset"):
+                    return frozenset(args[0])
+                if f in ("tuple", "list"):
+                    return tuple(args[0])
+                if f == "sorted":
+                    return tuple(sorted(args[0]))
+                if f in ("min", "max") and len(args) > 1:
+                    return (min if f == "min" else max)(args)
+                return {"len": len, "all": all, "any": any, "bool": bool, "min": min, "max": max, "abs": abs, "sum": sum}[f](args[0])
+            except Exception:
+                raise Undecidable("call " + f)
+        if isinstance(e.func, ast.Attribute) and f in ("issubset", "issuperset", "difference", "intersection", "isdisjoint", "union", "symmetric_difference") and len(e.args) == 1:
+            recv = eval_small(e.func.value, env)
+            if not isinstance(recv, (set, frozenset)):
+                raise Undecidable("set method on a non-set")
+            try:
+                return getattr(frozenset(recv), f)(eval_small(e.args[0], env))
+            except Exception:
+                raise Undecidable("set method")
+        raise Undecidable("call " + str(f))
+    raise Undecidable(type(e).__name__)
